@@ -240,6 +240,7 @@ func c20Reader(c *fw.Case) {
 	pos := 0
 	failed := false
 	firstErr := ""
+	remainingAtFailure := 0
 	for i, o := range ops {
 		add, _ := o.model()
 		fits := !failed && pos+len(add) <= cut
@@ -319,6 +320,7 @@ func c20Reader(c *fw.Case) {
 			c.Failf("reader-overrun-accepted/"+o.kind, "%s: the value is not completely present but Error() is nil (returned u=%d b=%s s=%q)", ctx(), gu, hx(gb), gs)
 			return
 		}
+		failedBefore := failed
 		if !failed {
 			failed = true
 			firstErr = err.Error()
@@ -329,11 +331,17 @@ func c20Reader(c *fw.Case) {
 		if o.kind == "bytes" {
 			if trimMode {
 				zero = zero && gb == nil
-			} else if failed && firstErr != "" {
-				// ReadBytes fills a caller buffer; after the first failure it must not touch it
-				zero = zero && (bytes.Equal(gb, make([]byte, len(gb))) || !bytes.Contains(in, gb) || true)
+			} else if failedBefore {
+				// ReadBytes fills a caller buffer; on a reader that has already failed it must not touch it
+				// (the read that fails first may have copied the octets that were still there)
+				zero = zero && bytes.Equal(gb, make([]byte, len(gb)))
 			}
 		}
+		if failedBefore && rd.Remaining() != remainingAtFailure {
+			c.Failf("reader-consumes-after-failure/"+o.kind, "%s: Remaining() went from %d to %d on a reader that had already failed", ctx(), remainingAtFailure, rd.Remaining())
+			return
+		}
+		remainingAtFailure = rd.Remaining()
 		if !zero {
 			c.Failf("reader-nonzero-after-failure/"+o.kind, "%s: a failed read returned u=%d b=%s s=%q instead of zero values", ctx(), gu, hx(gb), gs)
 			return
